@@ -31,7 +31,7 @@ LEVEL_TEXT = ('Exploration focused on boundaries: every generated configuration 
 LEVEL_NOTE = 'Trusted: bvf/refmodel.py constraint and packing model, generator exclusions in evidence assumptions.'
 
 KINDS = ['numeric', 'numeric', 'numeric_bytecode', 'numeric_enumeration', 'address', 'address', 'relative_address',
-         'relative_address', 'indirect_numeric', 'deferred_numeric', 'indirect_register']
+         'relative_address', 'indirect_numeric', 'deferred_numeric', 'indirect_register', 'indexed_nbc']
 
 
 def boundary_candidates(alt, isa, address, size):
@@ -78,6 +78,12 @@ def boundary_candidates(alt, isa, address, size):
     elif kind == 'indirect_register':
         if 'offset' in alt:
             width(alt['offset']['size'])
+    elif kind in ('indexed_register', 'indirect_indexed_register'):
+        # the index code of a register-indexed operand is a constrained value too
+        bc = alt['index_operands']['idx_nbc']['bytecode']
+        out += [(bc['min'] - 1, 'index-minmax'), (bc['min'], 'index-minmax'), (bc['max'], 'index-minmax'),
+                (bc['max'] + 1, 'index-minmax')]
+        width(bc['size'], tag='index-width')
     return out
 
 
@@ -103,7 +109,18 @@ def _cases(draw, tier):
         cfg['predefined'] = pre
     env = {'address_size': asz, 'zone_names': sorted(zones), 'zones': zones, 'keys': list(isagen.ENUM_KEYS)}
     kind = draw(st.sampled_from(KINDS))
-    alt = draw(isagen.alternative(kind, ['hl', 'a'], env))
+    if kind == 'indexed_nbc':
+        kind = draw(st.sampled_from(['indexed_register', 'indirect_indexed_register']))
+        isz = draw(isagen.bits(1, 6))
+        lo = draw(st.integers(-(1 << (isz - 1)) - 2, (1 << isz) - 1))
+        hi = draw(st.integers(max(lo, 0), (1 << isz) + 8))
+        alt = {'type': kind, 'register': 'hl', 'bytecode': draw(isagen._bytecode(force=True, max_size=8)),
+               'index_operands': {'idx_nbc': {'type': 'numeric_bytecode', 'bytecode': {'size': isz, 'min': lo, 'max': hi}}}}
+        if draw(st.booleans()):
+            alt['index_operands']['idx_a'] = {'type': 'register', 'register': 'a',
+                                              'bytecode': {'value': draw(isagen.unsigned_value(isz)), 'size': isz}}
+    else:
+        alt = draw(isagen.alternative(kind, ['hl', 'a'], env))
     if kind == 'address' and 'ROM' in zones and draw(st.integers(0, 3)) != 0:
         alt['argument']['memory_zone'] = 'ROM'
     if kind == 'indirect_register':
@@ -126,6 +143,21 @@ def _cases(draw, tier):
                 del pre['memory_zones']
             if not pre:
                 cfg.pop('predefined', None)
+    if kind in ('indexed_register', 'indirect_indexed_register'):
+        k = 'idxreg' if kind == 'indexed_register' else 'indidx'
+        op0 = {'k': k, 'r': 'hl', 'idx': {'k': 'expr', 'e': ['num', 0, 'dec']}, 'deco': None}
+        size = R.instruction_size(isa, 'tst', [op0])
+        if ghi - glo + 1 < size + 2:
+            return {'skip': 'address space too small', 'isa': cfg}
+        address = draw(st.integers(glo, ghi - size))
+        cands = boundary_candidates(alt, isa, address, size)
+        v, tag = draw(st.sampled_from(cands)) if draw(st.integers(0, 9)) < 8 else (draw(st.integers(-70, 140)), 'interior')
+        consts = {'kval': draw(st.integers(0, 5000)), 'ixv': v}
+        # the index position holds one token: a literal or a named constant
+        e = ['lab', 'ixv'] if v < 0 or draw(st.booleans()) else ['num', v, draw(st.sampled_from(['dec', 'hex$', 'bin%']))]
+        op = {'k': k, 'r': 'hl', 'idx': {'k': 'expr', 'e': e}, 'deco': None}
+        return {'isa': cfg, 'address': address, 'op': op, 'value': v, 'tag': tag, 'consts': consts, 'size': size,
+                'zone_decl': None, 'fill': draw(st.sampled_from([0, 0xEE]))}
     dummy = {'k': {'numeric': 'expr', 'numeric_bytecode': 'expr', 'numeric_enumeration': 'expr', 'address': 'expr',
                    'relative_address': 'braced' if alt.get('use_curly_braces') else 'expr',
                    'indirect_numeric': 'indnum', 'deferred_numeric': 'defnum', 'indirect_register': 'indreg'}[kind],
